@@ -48,6 +48,7 @@ def _case(draw):
         "thetas": thetas,
         "select": [draw(st.booleans()) for _ in range(n)],
         "perm_seed": draw(st.integers(0, 10**6)),
+        "int_table": draw(st.booleans()),
     }
 
 
@@ -138,6 +139,14 @@ def check_case(case):
     permuted = S.build_screen(dict(sc, rows=[rows[i] for i in perm]), treatment_mapping=tm, sample_mapping=sm)
     swapped = S.build_screen(dict(sc, rows=[dict(r, t=r["t"][::-1], d=r["d"][::-1]) for r in rows]), treatment_mapping=tm, sample_mapping=sm)
     holder = S.build_holder(case["thetas"])
+    if case.get("int_table"):
+        # the same table values, whole numbers written as Python ints (1 instead of 1.0): equal parameters, another representation
+        for th_ in holder.thetas:
+            tab_ = getattr(th_, "single_effect_lookup", None)
+            if isinstance(tab_, dict):
+                for k_, v_ in list(tab_.items()):
+                    if float(v_) == int(v_):
+                        tab_[k_] = int(v_)
     with np.errstate(all="ignore"):
         for p, theta in zip(case["thetas"], holder.thetas):
             snap = _snapshot(theta, screen)
